@@ -37,6 +37,7 @@ Qed.
    reports has left the pending table and the records the call wrote contain its TxComplete{Aborted}
    (after the phase change to Aborting), none of them a begin. *)
 Theorem C13_timeout_abort_is_logged : forall now c t order c' w out tx,
+  NoDupK (pending c) ->        (* one entry per transaction id: part of LInv, see C13_live_invariant *)
   step now c (Timeouts t order) = (c', w, out) -> In tx (tl out) ->
   In (TComplete tx false) w /\ aget (pending c') tx = None /\ (forall e, In e w -> forall x, is_begin x e = false).
 Proof. exact timed_out_is_logged. Qed.
@@ -49,7 +50,7 @@ Proof. exact timed_out_is_logged. Qed.
 Theorem C13_timed_out_never_committed :
   forall (ser : tentry -> list byte) (deser : list byte -> option tentry) (crc : list byte -> N),
   (forall e, deser (ser e) = Some e) -> (forall d, crc d < 4294967296) -> (forall e, wf ser e) ->
-  forall now0 c t order c' w out tx,
+  forall now0 c t order c' w out tx, NoDupK (pending c) ->
   step now0 c (Timeouts t order) = (c', w, out) -> In tx (tl out) ->
   forall now ES0 ES1 k,
   (bytes_upto ser crc true (ES0 ++ w ++ ES1) (length (ES0 ++ w)) <= k)%nat ->
@@ -137,6 +138,20 @@ Proof.
   - exact (fun now c es => LInv_recover_live gen_vote_first_wins now c es).
 Qed.
 
+(* recover_from_wal() on a coordinator constructed from an OLDER SNAPSHOT of its state
+   (load_from_store: the pending table and the lock table as they were when the snapshot was saved;
+   any state c): a transaction whose completion the log es holds -- and that the log does not begin
+   again -- is not pending afterwards and owns no lock, so it cannot be committed after it was
+   aborted and "locks of completed transactions are released" holds for the restored lock table
+   too.  [merge_recovered] is the coordinator after the call (the same function as in
+   C13_live_invariant). *)
+Theorem C13_snapshot_restart_drops_completed : forall now es c tx,
+  In tx (completed (fold_left (scan_step true) es sc0)) ->
+  aget (in_prog (fold_left (scan_step true) es sc0)) tx = None ->
+  aget (pending (merge_recovered gen_vote_first_wins now es c)) tx = None /\
+  forall l, In l (locks (merge_recovered gen_vote_first_wins now es c)) -> snd l <> tx.
+Proof. exact (recovery_drops_completed gen_vote_first_wins). Qed.
+
 (* the same statement is FALSE for the recovery rule before the fixes (no live rule, last vote
    wins): the reproduced finding F-C13-latevote *)
 Theorem C13_latevote_without_fix_refuted :
@@ -154,14 +169,13 @@ Theorem C13_completion_logged_before_release : forall now c tx order c' w out,
                /\ forall e, In e rest -> match e with TLockRelease _ _ | TAllReleased _ => True | _ => False end.
 Proof. exact complete_logged_before_release. Qed.
 
-(* LIMIT of the statement, made precise.  TxComplete{Committed} is written by commit() only (in the
+(* Committing = the decision is COMMIT.  TxComplete{Committed} is written by commit() only (in the
    same critical section as Prepared -> Committing); complete_commit / complete_abort -- the calls
-   that finish a transaction restored as Committing / Aborting -- write NOTHING.  So "completed as
-   committed" through complete_commit is never a LOGGED completion: the premise of
-   C13_logged_outcome_never_reversed cannot be met through that call, the transaction comes back as
-   Committing after every later restart, and abort() (no phase check) or the timeout sweeper can
-   then abort it.  The witness is the history the harness corpus "complete-commit-is-not-durable"
-   runs on the real coordinator. *)
+   that finish a transaction restored as Committing / Aborting -- write NOTHING, so a transaction
+   restored as Committing comes back as Committing after every later restart until commit()'s own
+   completion record is in the log.  Since /repo ec025c6b that is harmless: abort() refuses a
+   Committing transaction (nothing is written, it stays pending) and the timeout sweeper skips it;
+   it completes only through complete_commit. *)
 Theorem C13_complete_calls_log_nothing : forall now c tx,
   snd (fst (step now c (CompleteCommit tx))) = [] /\ snd (fst (step now c (CompleteAbort tx))) = [].
 Proof.
@@ -169,15 +183,24 @@ Proof.
   destruct (negb (phase t =? COMMITTING)); destruct (negb (phase t =? ABORTING)); split; reflexivity.
 Qed.
 
-Theorem C13_unlogged_completion_witness :
+Theorem C13_committing_is_never_aborted : forall now c tx t, NoDupK (pending c) ->
+  aget (pending c) tx = Some t -> phase t = COMMITTING ->
+  step now c (Abort tx) = (c, [], [1; 2]) /\
+  forall t' order c' w out, step now c (Timeouts t' order) = (c', w, out) -> out <> [9] ->
+    aget (pending c') tx = Some t /\ ~ In tx (tl out).
+Proof. exact committing_is_never_aborted. Qed.
+
+Theorem C13_restored_committing_witness :
   let es := [TBegin 0 [0]; TVote 0 0 (VYes 0); TPhase 0 PREPARING PREPARED; TPhase 0 PREPARED COMMITTING] in
   let c2 := fst (recover_entries true true 2000 es) in
-  let r := step 2000 c2 (CompleteCommit 0) in
-  snd r = [0] /\ snd (fst r) = [] /\ aget (pending (fst (fst r))) 0 = None /\
-  let c3 := fst (recover_entries true true 3000 (es ++ snd (fst r))) in
-  (exists t, aget (pending c3) 0 = Some t /\ phase t = COMMITTING) /\
-  step 3000 c3 (Abort 0) = (Co [] [] 5000, [TPhase 0 COMMITTING ABORTING; TComplete 0 false], [0]).
-Proof. vm_compute. repeat split. eexists. split; reflexivity. Qed.
+  (* the restarted coordinator holds it as Committing; abort and a sweep 6 s later leave it alone *)
+  (exists t, aget (pending c2) 0 = Some t /\ phase t = COMMITTING) /\
+  step 2000 c2 (Abort 0) = (c2, [], [1; 2]) /\
+  step 9000 c2 (Timeouts 9000 []) = (c2, [], [3]) /\
+  (* complete_commit finishes it in memory, writing nothing: the next restart shows it again *)
+  step 2000 c2 (CompleteCommit 0) = (Co [] [] 5000, [], [0]) /\
+  (exists t, aget (pending (fst (recover_entries true true 3000 es))) 0 = Some t /\ phase t = COMMITTING).
+Proof. vm_compute. repeat split; eexists; split; reflexivity. Qed.
 
 (* non-vacuity: a concrete log with a committed transaction, a prepared one and one still
    collecting votes satisfies the hypotheses (position 5 holds TxComplete of tx 0) *)
@@ -202,9 +225,11 @@ Print Assumptions C13_timeout_abort_is_logged.
 Print Assumptions C13_timed_out_never_committed.
 Print Assumptions C13_recovered_table.
 Print Assumptions C13_complete_calls_log_nothing.
-Print Assumptions C13_unlogged_completion_witness.
+Print Assumptions C13_committing_is_never_aborted.
+Print Assumptions C13_restored_committing_witness.
 Print Assumptions C13_repeated_restarts.
 Print Assumptions C13_completion_logged_before_release.
 Print Assumptions C13_prepared_comes_back_with_live_votes.
 Print Assumptions C13_live_invariant.
+Print Assumptions C13_snapshot_restart_drops_completed.
 Print Assumptions C13_latevote_without_fix_refuted.
